@@ -42,6 +42,11 @@ type Ctx struct {
 	allFns  map[*ssa.Function]bool
 	srcFns  []*ssa.Function // functions (incl. anonymous) with source in the repository
 	e1      *E1
+
+	Norm *NormNotes // what the helper-inlining normalisation did (normalize.go)
+
+	callerIdx map[*ssa.Function][]*ssa.Function
+	valueUse  map[*ssa.Function]bool
 }
 
 // E1 returns the (lazily computed) ownership/effects analysis of this program.
@@ -65,6 +70,7 @@ func Load(repo, goarch string, overlay map[string][]byte) *Ctx {
 	if goarch != "" {
 		env = append(env, "GOARCH="+goarch)
 	}
+	overlay, norm := normalizeOverlay(repo, goarch, overlay)
 	fset := token.NewFileSet()
 	cfg := &packages.Config{
 		Mode:    packages.LoadAllSyntax,
@@ -78,7 +84,7 @@ func Load(repo, goarch string, overlay map[string][]byte) *Ctx {
 	if err != nil {
 		undecidedf("LOAD-ERROR: %v", err)
 	}
-	c := &Ctx{RepoDir: repo, GOARCH: goarch, Overlay: overlay, Fset: fset, Pkgs: map[string]*packages.Package{}, SSA: map[string]*ssa.Package{}}
+	c := &Ctx{RepoDir: repo, GOARCH: goarch, Overlay: overlay, Norm: norm, Fset: fset, Pkgs: map[string]*packages.Package{}, SSA: map[string]*ssa.Package{}}
 	nerr := 0
 	packages.Visit(pkgs, nil, func(p *packages.Package) {
 		for _, e := range p.Errors {
@@ -676,6 +682,11 @@ func (r *Report) Finish(c *Ctx, verifDir string, start time.Time, explanation st
 			if exit == 0 {
 				exit = 2
 			}
+		}
+	}
+	for _, n := range r.Notes {
+		if strings.HasPrefix(n, "normalisation") {
+			lines = append(lines, fmt.Sprintf("NOTE property=%s %s", r.Prop, n))
 		}
 	}
 	for k := range knownIdx {
